@@ -549,3 +549,17 @@ Print Assumptions C07_dispatch_print.
 Theorem C07_dispatch_parse : forall w r s, 0 < w -> w mod 2 = 0 -> 2 <= r -> r < Bw w -> body_gen w r s = body_spec r s.
 Proof. exact body_gen_correct. Qed.
 Print Assumptions C07_dispatch_parse.
+
+(** fmt/mod.rs InRadixWriter::format_prepared REGENERATED by a symbolic run of its output statements (write_str(sign),
+    write_str(prefix), the write_char loops with their ranges, write_digits, under the `match f.width()` / if / `match f.align()`
+    structure; coq/gen/IoDispatch4.v gen4_layout): it is the hand transcription and therefore core::fmt's pad_integral, for every
+    flag combination, width, fill, prefix and digit text *)
+Theorem C07_layout_gen_eq : forall f neg prefix digits,
+  format_prepared_gen f neg prefix digits = format_prepared_asis f neg prefix digits.
+Proof. exact format_prepared_gen_eq. Qed.
+Print Assumptions C07_layout_gen_eq.
+
+Theorem C07_layout_gen : forall f neg prefix digits,
+  format_prepared_gen f neg (if f_alt f then prefix else []) digits = pad_integral_spec f (negb neg) prefix digits.
+Proof. exact format_prepared_gen_correct. Qed.
+Print Assumptions C07_layout_gen.
